@@ -13,7 +13,7 @@ import sys
 sys.path.insert(0, os.path.dirname(os.path.abspath(__file__)))
 import vlib  # noqa: E402
 
-CSUM = {"cmp_pm_coinc", "cmp_jsa_raw", "cmp_jsa", "cmp_jsi"}
+CSUM = {"cmp_pm_coinc", "cmp_jsa_raw", "cmp_jsa", "cmp_jsi", "cmpa_jsi_from_config"}
 CREL = {"cmp_integrand"}
 
 
